@@ -25,6 +25,11 @@ def declare(U):
     # pigeonhole facts of the channel model (each get takes a distinct sent index): assumed, see DESIGN §4
     g.ensures("self.chan.nrecv <= self.chan.sent", "model:received<=sent")
     g.ensures("implies(self.chan.nrecv == self.chan.sent, forall(i, 0, self.chan.sent, self.chan.recv[i]))", "model:all-received-when-counts-agree")
+    # stop tokens (None) put on the work queue: counted (ghost)
+    Q.ghost["stops"] = INT
+    pm = Q.methods["put"]
+    pm.modifies("self.stops")
+    pm.ensures("self.stops == old(self.stops) + ite(is_none(item), 1, 0)", "stop-tokens-are-counted")
     m = Q.method("qsize", {}, INT, trusted=True)       # advisory only: any non-negative number
     m.ensures("result >= 0")
     LK = E.cls("Lock", fields={})
